@@ -32,6 +32,27 @@ Oracle on (outcome o of Relay.attempt, L):
            refused optional STARTTLS / the idle connection: a recipient in L is reported delivered.
 Every violation seen in a concurrent batch is re-executed alone; only what the isolated run shows is reported
 (the batch is a screen), so verdicts never depend on how busy the hub was.
+
+Strata added by the coverage audit (gen_smtp_audit and the 'audit' blocks of the pipe / http / mx generators; every
+one has a 'stratum/...' hit in REQUIRED_HITS and a mutant /verif/mutants/C11-audit-m*.patch):
+ smtp  positive replies other than one-line 250 (251, 299, multi-line, arriving in segments => accepted all the
+       same); well-formed multi-line and segmented 4xx/5xx; first line of a multi-line reply then silence; abortive
+       close (real TCP RST, vf.c11_downstream); TLS handshake failing after STARTTLS 220 (stall, plaintext garbage,
+       fatal alert, untrusted certificate); immediate TLS (tls_immediately=True) with the same handshake failures;
+       stage faults inside an established TLS session incl. a corrupted TLS record; a next hop that answers DATA 354
+       although it refused the sender / every recipient (the relay owes it an empty message); a next hop without
+       8BITMIME and an 8-bit message (with / without binary_encoder); designed two-fault scripts in which every
+       recipient has exactly one deviating reply (RCPT_k + LMTP end-of-data_j, two RCPT of different class, every
+       RCPT refused with differing classes) -- CLASS is judged per recipient there.
+ pipe  the rest of the exit-status range (sysexits, 126, 255); a program that exits without reading a message
+       larger than a pipe buffer.
+ http  other 2xx, 3xx (never followed, never a delivery), other 4xx/5xx; interim 100 Continue; https next hop
+       (statuses inside TLS, handshake eof / stall / garbage / untrusted certificate / plain-HTTP port); TCP RST
+       before / in the middle of the response head.
+ mx    fallback over five attempts with the hosts failing in different ways and the rotation wrapping around;
+       force_mx (host, port, case-insensitive domain, resolver never consulted); the resolver's answer changing
+       between attempts (nothing remembered from a failed lookup, nothing beyond the TTL from a successful one);
+       every error code the resolver library defines.
 """
 import os
 import re
@@ -49,6 +70,7 @@ import pycares
 import pycares.errno
 
 from vf.downstream import Downstream
+from vf.c11_downstream import Downstream11
 from vf import tls as vtls
 
 from slimta.relay import RelayError, PermanentRelayError, TransientRelayError
@@ -67,9 +89,14 @@ LEVEL_TEXT = ('Single-fault enumeration at the downstream boundary of the real r
               'pipe relays (4 classes x exit status x stdout/stderr shape x timeout), HTTP relay (status x '
               'X-Smtp-Reply x connection faults x reuse), MX relay (stub resolver scripts x attempt number x '
               'downstream fault). Both tiers enumerate the whole designed single-fault table (~3 600 cases); quick '
-              'adds 1 500 seeded double/triple faults, thorough 60 000 and the reuse table over every outcome. Held = the '
-              'oracle was silent on the scripts enumerated; other downstream behaviours (trickled replies, very '
-              'long replies, TLS alerts mid-session, a resolver that never answers) are not covered.')
+              'adds 1 500 seeded double/triple faults, thorough 60 000 and the reuse table over every outcome. The audit '
+              'strata add: reply shapes (other 2xx codes, multi-line, segmented), TCP reset, TLS handshake failures, '
+              'immediate TLS, faults inside TLS, DATA 354 after a refusal, 8-bit message for a 7-bit next hop, '
+              'designed per-recipient two-fault scripts, more pipe exit statuses and an unread stdin, HTTP 3xx / 100 / '
+              'https / reset, MX fallback sequences / force_mx / changing resolver answers / all resolver error codes. '
+              'Held = the oracle was silent on the scripts enumerated; other downstream behaviours (replies slower '
+              'than but within the timeout, very long replies, AUTH challenge-stage faults, equal MX preferences, a '
+              'resolver that never answers, a real pycares channel) are not covered.')
 LEVEL_NOTE = ('Trusted: vf.downstream.Downstream (own parser and acceptance log), the /bin/sh stub and its log file, '
               'the ~60-line scripted HTTP server, StubChannel (~25 lines), the expectation table computed by the '
               'generator from the script alone (function expect_smtp and friends), result normalisation (~40 lines).')
@@ -91,11 +118,26 @@ ASSUMPTIONS = ['the Downstream / stub / HTTP-server logs are the truth about wha
                '(maildrop/dovecot) are only required to be failures of a proper type',
                'the stub resolver always answers (a resolver that never answers is pycares\' own timeout, reported '
                'to slimta as ARES_ETIMEOUT, which is scripted)',
-               'equal MX priorities are not scripted (their order is unspecified)']
+               'equal MX priorities are not scripted (their order is unspecified)',
+               'TLS handshake refused by garbage / alert / untrusted certificate, an 8-bit message that cannot be '
+               'converted, HTTPS handshake failures other than a stall: only a failure of a proper type is demanded '
+               '(the statement names no class for them); a handshake that stalls or ends in EOF is a timeout / '
+               'disconnect => transient',
+               'designed two-fault scripts judge CLASS per recipient only where every recipient has exactly one '
+               'deviating reply',
+               'a resolver answer with TTL 0 is not reused by the next attempt; within a TTL nothing is demanded']
 REQUIRED_HITS = ['smtp-attempt-judged', 'lmtp-attempt-judged', 'pipe-attempt-judged', 'http-attempt-judged',
                  'mx-attempt-judged', 'delivered-vs-accepted-compared', 'class-judged', 'complete-judged',
                  'watchdog-armed', 'mx-host-choice-checked', 'reuse-second-message-judged',
-                 'tls-negotiated-downstream']
+                 'tls-negotiated-downstream',
+                 # audit strata (each decides CLASS / SAFETY / TYPE for a behaviour the first table lacked)
+                 'stratum/tcp-reset-by-next-hop', 'stratum/positive-reply-variant', 'stratum/multi-line-reply',
+                 'stratum/segmented-reply', 'stratum/tls-handshake-failure', 'stratum/tls-immediately',
+                 'stratum/fault-inside-tls-session', 'stratum/empty-message-owed-after-refusal',
+                 'stratum/8bit-message-for-7bit-next-hop', 'stratum/two-recipient-faults-attribution',
+                 'stratum/mx-fallback-sequence', 'stratum/mx-forced-destination',
+                 'stratum/mx-resolver-answer-changes', 'stratum/https-session', 'stratum/https-handshake-failure',
+                 'stratum/http-3xx-status', 'stratum/http-interim-100', 'stratum/pipe-stdin-not-read']
 SHARDS = {'quick': 12, 'thorough': 16}
 BUDGET = {'quick': 60, 'thorough': 800}
 EXHAUSTIVE = {'quick': False, 'thorough': False}
@@ -103,6 +145,7 @@ EXHAUSTIVE = {'quick': False, 'thorough': False}
 T_STALL = 0.1       # relay timeouts in cases where the script makes the relay wait
 T_FAST = 0.3        # relay timeouts elsewhere (nothing in the script makes the relay wait), batch screen
 T_ALONE = 1.0       # ... the same in the isolated (authoritative / replay) execution
+T_PIPE_MIX = 1.0    # PipeRelay timeout where several programs run in sequence and a later one sleeps (5 s)
 K = 8               # watchdog = K x timeout, plus a grace period of K/2 x timeout (see run_attempt)
 BATCH = {'smtp': 40, 'mx': 20, 'http': 10, 'pipe': 8}
 NMULTI = {'quick': 1500, 'thorough': 60000}     # seeded double / triple fault scripts
@@ -152,7 +195,16 @@ def _scratch():
 def _ctx(which):
     key = 'ctx-' + which
     if key not in _G:
-        _G[key] = vtls.server_context() if which == 'server' else vtls.client_context()
+        if which == 'client-strict':
+            # a client that verifies the certificate chain and trusts no CA: the scripted next hop's
+            # self-signed certificate is refused during the handshake
+            from gevent import ssl as gssl
+            c = gssl.SSLContext(gssl.PROTOCOL_TLS_CLIENT)
+            c.check_hostname = False
+            c.verify_mode = gssl.CERT_REQUIRED
+            _G[key] = c
+        else:
+            _G[key] = vtls.server_context() if which == 'server' else vtls.client_context()
     return _G[key]
 
 
@@ -161,6 +213,8 @@ def shard_cleanup():
     srv = _G.pop('http-server', None)
     if srv is not None:
         srv.stop()
+    for t in _G.pop('https-servers', {}).values():
+        t.stop()
     d = _G.pop('scratch', None)
     if d:
         shutil.rmtree(d, ignore_errors=True)
@@ -230,10 +284,28 @@ def run_attempt(relay, env, attempts, timeout):
     return {'end': 'returned-bad-type', 'type': type(ret).__name__, 'repr': repr(ret)[:200], 'per': {}}
 
 
-def make_envelope(sender, rcpts, marker):
+BODIES = {
+    # name: (extra header lines, body) -- for next hops that do not advertise 8BITMIME
+    'latin1': (b'', b'caf\xe9 au lait\r\n'),
+    'utf8': (b'Content-Type: text/plain; charset=utf-8\r\nContent-Transfer-Encoding: 8bit\r\nMIME-Version: 1.0\r\n',
+             'gr\u00fc\u00dfe \u2603\r\n'.encode('utf-8')),
+    'multipart': (b'MIME-Version: 1.0\r\nContent-Type: multipart/mixed; boundary="b0"\r\n',
+                  b'--b0\r\nContent-Type: text/plain; charset=iso-8859-1\r\nContent-Transfer-Encoding: 8bit\r\n\r\n'
+                  b'caf\xe9\r\n--b0\r\nContent-Type: application/octet-stream\r\n\r\n\xff\xfe\x00\x01\r\n--b0--\r\n'),
+    'big': (b'', (b'x' * 76 + b'\r\n') * 4000),       # ~300 kB: more than any pipe buffer
+    'bogus-charset': (b'MIME-Version: 1.0\r\nContent-Type: text/plain; charset=x-no-such-charset\r\n'
+                      b'Content-Transfer-Encoding: 8bit\r\n', b'\xa4\xa5\xa6\r\n'),
+}
+
+
+def make_envelope(sender, rcpts, marker, body=None):
     env = Envelope(sender, list(rcpts))
-    env.parse(('From: %s\r\nX-Verif-Msg: %s\r\nSubject: c11\r\n\r\nbody of %s\r\n.dot line\r\n'
-               % (sender, marker, marker)).encode())
+    hdr = ('From: %s\r\nX-Verif-Msg: %s\r\nSubject: c11\r\n' % (sender, marker)).encode()
+    if body is None:
+        env.parse(hdr + ('\r\nbody of %s\r\n.dot line\r\n' % marker).encode())
+    else:
+        extra, payload = BODIES[body]
+        env.parse(hdr + extra + b'\r\n' + payload)
     return env
 
 
@@ -259,8 +331,28 @@ OUTCOMES = collections.OrderedDict([
     ('3xx', ('wrongclass', ['reply', '354'])),
     ('close', ('close', ['close'])),
     ('stall', ('stall', ['stall'])),
+    # --- audit: failure forms the first table did not have
+    # well-formed multi-line replies (the class is that of the code, as for a single line)
+    ('ml-450', ('4xx', ['reply-ml', '450', ['4.2.0 mailbox busy', 'second line', 'third line']])),
+    ('ml-550', ('5xx', ['reply-ml', '550', ['5.1.1 no such user', 'second line', 'third line']])),
+    # a well-formed reply that arrives in three segments
+    ('split-450', ('4xx', ['chunks', 3, ['reply', '450']])),
+    ('split-550', ('5xx', ['chunks', 3, ['reply', '550']])),
+    # the first line of a multi-line reply, complete, then silence
+    ('partial-ml-silence', ('malformed', ['raw', b'{c}-first line\r\n'])),
+    # abortive close: the relay sees ECONNRESET / EPIPE instead of an orderly end of stream
+    ('reset', ('close', ['reset'])),
 ])
-SLOW_OUTCOMES = ('stall', 'partial-silence')
+SLOW_OUTCOMES = ('stall', 'partial-silence', 'partial-ml-silence')
+# positive replies other than the plain one-line 250: every one of them is an acceptance
+OK_VARIANTS = collections.OrderedDict([
+    ('251', ['reply', '251']), ('299', ['reply', '299']),
+    ('ml-250', ['reply-ml', '250', ['2.0.0 fine', 'second line', 'third line']]),
+    ('split-ok', ['chunks', 3, ['ok']]),
+])
+# inside an established TLS session only
+TLS_OUTCOMES = {'tlscorrupt': ('close', ['tlscorrupt'])}
+TLS_ALERT = b'\x15\x03\x03\x00\x02\x02\x28'      # fatal handshake_failure
 NORMAL_CODE = {'banner': b'220', 'data': b'354', 'auth': b'235', 'quit': b'221', 'starttls': b'220'}
 CLS = {'4xx': 'T', '5xx': 'P', 'malformed': 'T', 'close': 'T', 'stall': 'T'}
 
@@ -273,6 +365,10 @@ def action_for(stage, outcome):
     if outcome == '2xx':
         code = {'banner': '220', 'quit': '221', 'auth': '235'}.get(stage_family(stage), '250')
         return ['reply', code]
+    if outcome in OK_VARIANTS:
+        return list(OK_VARIANTS[outcome])
+    if outcome in TLS_OUTCOMES:
+        return list(TLS_OUTCOMES[outcome][1])
     a = list(OUTCOMES[outcome][1])
     if a[0] == 'raw':
         code = NORMAL_CODE.get(stage_family(stage), b'250')
@@ -286,6 +382,8 @@ def expect_smtp(lmtp, nrcpt, stage, oclass, tls_required=False):
     fam = stage_family(stage)
     if oclass == 'wrongclass':
         return ['?'] * nrcpt
+    if oclass == 'ok-variant':               # a positive reply in another shape: an acceptance like any other
+        return ['D'] * nrcpt
     if oclass == '2xx':
         return ['?' if fam in ('data', 'starttls') else 'D'] * nrcpt
     c = CLS[oclass]
@@ -306,7 +404,9 @@ def expect_smtp(lmtp, nrcpt, stage, oclass, tls_required=False):
 
 
 def smtp_case(lmtp, pipelining, nrcpt, stage, outcome, faults, expect, **kw):
-    oclass = kw.pop('oclass', None) or ('2xx' if outcome in ('2xx', 'ok') else OUTCOMES[outcome][0])
+    oclass = kw.pop('oclass', None) or ('2xx' if outcome in ('2xx', 'ok') else 'ok-variant' if outcome in OK_VARIANTS
+                                        else TLS_OUTCOMES[outcome][0] if outcome in TLS_OUTCOMES
+                                        else OUTCOMES[outcome][0])
     case = {'kind': 'smtp', 'lmtp': lmtp, 'pipelining': pipelining, 'nrcpt': nrcpt, 'stage': stage,
             'outcome': outcome, 'oclass': oclass, 'faults': faults, 'expect': expect, 'single': True,
             'slow': any(o in outcome for o in SLOW_OUTCOMES), 'tls': None, 'auth': False, 'reuse': None}
@@ -341,6 +441,10 @@ def smtp_stage_outcomes(lmtp, nrcpt):
             if st == 'data' and o == '3xx':
                 continue
             yield st, o
+        for o in OK_VARIANTS:
+            if st == 'quit' or (st == 'data' and o != 'split-ok'):
+                continue                   # DATA is answered 354: only its segmentation varies
+            yield st, o
 
 
 def gen_smtp_all(rnd, ndouble, full=False):
@@ -355,7 +459,7 @@ def gen_smtp_all(rnd, ndouble, full=False):
                         cases.append(smtp_case(lmtp, pipelining, nrcpt, st, o, f, ['T'] * nrcpt, oclass=(
                             'close' if o == 'refuse' else 'stall'), slow=(o == 'stall')))
                         continue
-                    oclass = '2xx' if o == '2xx' else OUTCOMES[o][0]
+                    oclass = '2xx' if o == '2xx' else 'ok-variant' if o in OK_VARIANTS else OUTCOMES[o][0]
                     cases.append(smtp_case(lmtp, pipelining, nrcpt, st, o, [fault(st, o)],
                                            expect_smtp(lmtp, nrcpt, st, oclass)))
     # --- an address that cannot be expressed to this next hop: non-ASCII sender / recipient while the
@@ -413,7 +517,8 @@ def gen_smtp_all(rnd, ndouble, full=False):
                     cases.append(smtp_case(lmtp, pipelining, 2, 'rset-after-' + name, o, ff + [fault('rset', o)], exp))
     # --- connection reuse: fault in the first message, clean second message on the same relay object
     reuse_stages = ['banner', 'mail', 'rcpt0', 'rcpt1', 'data', 'eod0', 'eod1', 'quit']
-    reuse_outcomes = ['450', '550', 'garbage', 'range699', 'badutf8', 'partial-silence', '1xx', 'close', 'stall']
+    reuse_outcomes = ['450', '550', 'garbage', 'range699', 'badutf8', 'partial-silence', '1xx', 'close', 'stall',
+                      'reset']
     if full:
         reuse_outcomes = list(OUTCOMES)
         reuse_stages = ['banner', 'ehlo'] + reuse_stages[1:]
@@ -444,10 +549,11 @@ def gen_smtp_all(rnd, ndouble, full=False):
                                            [['D', 'D'], ['D', 'D']], reuse=mode, idle_stage=True,
                                            oclass={'421': '4xx', '554': '5xx', 'close': 'close',
                                                    'garbage': 'malformed'}[o]))
+    cases.extend(gen_smtp_audit())
     # --- seeded double / triple faults: SAFETY / TYPE / ENDS only
     for _ in range(ndouble):
         lmtp, pipelining, nrcpt = rnd.random() < 0.5, rnd.random() < 0.5, rnd.choice([1, 2, 2, 3])
-        table = [(s, o) for s, o in smtp_stage_outcomes(lmtp, nrcpt) if s != 'connect' and o != '2xx']
+        table = [(s, o) for s, o in smtp_stage_outcomes(lmtp, nrcpt) if s != 'connect' and o in OUTCOMES]
         table += [('rset', o) for o in OUTCOMES if o not in ('1xx', '3xx')]
         picks = rnd.sample(table, 3 if rnd.random() < 0.25 else 2)
         if len(set(s for s, _ in picks)) < len(picks):
@@ -461,6 +567,98 @@ def gen_smtp_all(rnd, ndouble, full=False):
             c['reuse'] = rnd.choice(['immediate', 'after-idle'])
             c['expect'] = [c['expect'], ['?'] * nrcpt]
         cases.append(c)
+    return cases
+
+
+def gen_smtp_audit():
+    """Strata added by the coverage audit (each one has a mutant under /verif/mutants/C11-audit-m*.patch)."""
+    cases = []
+    # --- A1: the TLS handshake itself fails after a positive STARTTLS reply (close is in the first table)
+    HS = [('tls-handshake-stall', ['stall'], 'stall', 'T'),
+          ('tls-handshake-garbage', ['garbage', b'HTTP/1.1 400 Bad Request\r\n\r\n'], 'malformed', 'F'),
+          ('tls-handshake-alert', ['garbage', TLS_ALERT], 'close', 'F')]
+    for lmtp in (False, True):
+        for req in (True, False):
+            for name, act, oclass, e in HS:
+                cases.append(smtp_case(lmtp, True, 2, 'starttls', name, [{'stage': 'tlshandshake', 'action': act}],
+                                       [e, e], oclass=oclass, tls={'required': req}, slow=(act[0] == 'stall')))
+            cases.append(smtp_case(lmtp, True, 2, 'starttls', 'tls-cert-untrusted', [], ['F', 'F'], oclass='close',
+                                   tls={'required': req, 'strict': True}, nontrivial=True))
+    # --- A2: immediate TLS (tls_immediately=True, SMTPS-style next hop)
+    for lmtp in (False, True):
+        t = {'required': True, 'immediately': True}
+        cases.append(smtp_case(lmtp, True, 2, 'tlsconnect', 'ok', [], ['D', 'D'], oclass='2xx', tls=t, nontrivial=True))
+        for name, act, oclass, e in [('tls-handshake-eof', ['close'], 'close', 'T')] + HS:
+            cases.append(smtp_case(lmtp, True, 2, 'tlsconnect', name, [{'stage': 'tlshandshake', 'action': act}],
+                                   [e, e], oclass=oclass, tls=t, slow=(act[0] == 'stall')))
+        cases.append(smtp_case(lmtp, True, 2, 'tlsconnect', 'tls-cert-untrusted', [], ['F', 'F'], oclass='close',
+                               tls=dict(t, strict=True), nontrivial=True))
+        for st, o in (('banner', '554'), ('banner', 'close'), ('mail', '450'), ('rcpt0', '550'), ('eod0', '451'),
+                      ('quit', 'close')):
+            cases.append(smtp_case(lmtp, True, 2, 'tlsconnect+' + st, o, [fault(st, o)],
+                                   expect_smtp(lmtp, 2, st, OUTCOMES[o][0]), tls=t))
+    # --- A3: faults inside an established TLS session (after STARTTLS)
+    for lmtp in (False, True):
+        stages = ['mail', 'rcpt0', 'rcpt1', 'data', 'eod0'] + (['eod1'] if lmtp else []) + ['quit']
+        for st in stages:
+            for o in ('450', '550', 'close', 'stall', 'garbage', 'reset', 'tlscorrupt'):
+                oclass = (TLS_OUTCOMES.get(o) or OUTCOMES[o])[0]
+                cases.append(smtp_case(lmtp, True, 2, 'tls+' + st, o, [fault(st, o)], expect_smtp(lmtp, 2, st, oclass),
+                                       tls={'required': True}))
+    # --- A4: a next hop that answers DATA with 354 although it refused the sender / every recipient; the relay
+    #     owes it an (empty) message before it can go on.  The class is that of the refusal.
+    for lmtp in (False, True):
+        for pipelining in (True, False):
+            firsts = [('mail-550', [fault('mail', '550')], 'P'), ('mail-450', [fault('mail', '450')], 'T'),
+                      ('rcpt-all-550', [fault('rcpt0', '550'), fault('rcpt1', '550')], 'P'),
+                      ('rcpt-all-450', [fault('rcpt0', '450'), fault('rcpt1', '450')], 'T')]
+            for name, ff, e in firsts:
+                for o in ('ok', '554', 'close', 'stall'):
+                    extra = [] if o == 'ok' else [fault('eod0', o)]
+                    cases.append(smtp_case(lmtp, pipelining, 2, 'lenient-data-after-' + name, o, ff + extra,
+                                           [e, e] if o == 'ok' else ['?', '?'], oclass='lenient', lenient=True,
+                                           slow=(o == 'stall')))
+                cases.append(smtp_case(lmtp, pipelining, 2, 'lenient-data-after-' + name, 'ok', ff,
+                                       [[e, e], ['D', 'D']], oclass='lenient', lenient=True, reuse='immediate'))
+    # --- A5: a next hop without 8BITMIME and a message with 8-bit content: converted (binary_encoder given) and
+    #     delivered, or failed with a relay error before anything is sent
+    for lmtp in (False, True):
+        for body in ('latin1', 'utf8', 'multipart', 'bogus-charset'):
+            cases.append(smtp_case(lmtp, True, 2, 'no-8bitmime', body + '/no-encoder', [], ['F', 'F'], oclass='8bit',
+                                   no8bitmime=True, body=body, nontrivial=True))
+            cases.append(smtp_case(lmtp, True, 2, 'no-8bitmime', body + '/base64-encoder', [],
+                                   ['D', 'D'] if body in ('latin1', 'utf8') else ['?', '?'], oclass='8bit',
+                                   no8bitmime=True, body=body, encoder=True, nontrivial=True))
+        cases.append(smtp_case(lmtp, True, 2, 'no-8bitmime', 'latin1/no-encoder', [], [['F', 'F'], ['D', 'D']],
+                               oclass='8bit', no8bitmime=True, body='latin1', nontrivial=True, reuse='immediate'))
+    # --- A6: per-recipient attribution when two recipients get different negative answers (every recipient has
+    #     exactly one deviating reply, so its class is unambiguous)
+    cl = {'450': 'T', '550': 'P'}
+    for pipelining in (True, False):
+        for k in range(3):                  # LMTP: RCPT k refused, end-of-data reply j (of the accepted) negative
+            for j in range(2):
+                for ck in ('450', '550'):
+                    for cj in ('450', '550'):
+                        acc = [i for i in range(3) if i != k]
+                        exp = ['D'] * 3
+                        exp[k], exp[acc[j]] = cl[ck], cl[cj]
+                        cases.append(smtp_case(True, pipelining, 3, 'rcpt%d+eod%d' % (k, j), ck + '+' + cj,
+                                               [fault('rcpt%d' % k, ck), fault('eod%d' % j, cj)], exp,
+                                               oclass='attribution'))
+        for lmtp in (False, True):
+            for k1 in range(3):             # two RCPT refused with different classes, the third accepted
+                for k2 in range(3):
+                    if k1 != k2:
+                        exp = ['D'] * 3
+                        exp[k1], exp[k2] = 'T', 'P'
+                        cases.append(smtp_case(lmtp, pipelining, 3, 'rcpt%d+rcpt%d' % (k1, k2), '450+550',
+                                               [fault('rcpt%d' % k1, '450'), fault('rcpt%d' % k2, '550')], exp,
+                                               oclass='attribution'))
+            for codes in (('450', '550'), ('550', '450'), ('450', '550', '550'), ('550', '450', '450'),
+                          ('550', '550', '450')):          # every RCPT refused, classes differ
+                cases.append(smtp_case(lmtp, pipelining, len(codes), 'rcpt-all-mixed', '+'.join(codes),
+                                       [fault('rcpt%d' % i, c) for i, c in enumerate(codes)], [cl[c] for c in codes],
+                                       oclass='attribution'))
     return cases
 
 
@@ -517,14 +715,23 @@ def exec_smtp(case, alone=False):
     uid = _uid()
     fired = set()
     tlsopt = case.get('tls')
-    D = Downstream(lmtp=case['lmtp'], pipelining=case['pipelining'],
-                   tls_context=_ctx('server') if tlsopt else None, auth=bool(case.get('auth')),
-                   idle_stage=bool(case.get('idle_stage')))
+    D = Downstream11(lmtp=case['lmtp'], pipelining=case['pipelining'],
+                     tls_context=_ctx('server') if tlsopt else None, auth=bool(case.get('auth')),
+                     idle_stage=bool(case.get('idle_stage')),
+                     tcp=any(f['action'][0] == 'reset' for f in case['faults']),
+                     tls_immediately=bool(tlsopt and tlsopt.get('immediately')),
+                     lenient_data=bool(case.get('lenient')),
+                     extensions=() if case.get('no8bitmime') else (b'8BITMIME',))
     D.script = make_script(D, case['faults'], fired)
     kw = dict(socket_creator=D.creator, connect_timeout=T, command_timeout=T, data_timeout=T, ehlo_as='me',
-              context=_ctx('client'))
+              context=_ctx('client-strict' if tlsopt and tlsopt.get('strict') else 'client'))
     if tlsopt:
         kw['tls_required'] = bool(tlsopt['required'])
+        if tlsopt.get('immediately'):
+            kw['tls_immediately'] = True
+    if case.get('encoder'):
+        from email import encoders
+        kw['binary_encoder'] = encoders.encode_base64
     if case.get('auth'):
         kw['credentials'] = ('user', 'pw')
     if case.get('reuse'):
@@ -543,7 +750,7 @@ def exec_smtp(case, alone=False):
     try:
         for mi in range(nmsg):
             marker = 'c11-%d-m%d' % (uid, mi)
-            env = make_envelope(sender, rcpts, marker)
+            env = make_envelope(sender, rcpts, marker, case.get('body') if mi == 0 else None)
             res = run_attempt(relay, env, mi, T)
             msgs.append({'label': 'msg%d' % (mi + 1), 'marker': marker, 'rcpts': rcpts, 'result': res,
                          'expect': dict(zip(rcpts, expects[mi]))})
@@ -565,7 +772,9 @@ def exec_smtp(case, alone=False):
         _disown(relay)
     return {'msgs': msgs, 'fired': sorted(fired), 'nfaults': len(case['faults']),
             'log': {'connects': D.connects, 'conns': _conn_log(D), 'client_greenlets_died_with': list(crashes)},
-            'tls_seen': any(c.tls for c in D.conns), 'reused': any(len(c.txns) > 1 for c in D.conns)}
+            'tls_seen': any(c.tls for c in D.conns), 'reused': any(len(c.txns) > 1 for c in D.conns),
+            'reset_seen': any(getattr(c, 'reset', False) for c in D.conns), 'tcp': D.tcp,
+            'empty_data_seen': any(t['data_ok'] and t['content'] == b'' for c in D.conns for t in c.txns)}
 
 
 # ------------------------------------------------------------------------------------------------
@@ -576,6 +785,7 @@ STUB = r'''#!/bin/sh
 #   B_<exit>_<stdout>_<stderr>_<sleep>_<n>[_<SIGNAL>_<pre|post>]
 # with a signal the program kills itself (kill -SIGNAL $$) before (pre) or after (post) draining stdin,
 # after having written the scripted output; it never logs an 'exit' line then.
+#   B_<exit>_<stdout>_<stderr>_<sleep>_<n>_NONE_nodrain : exits without reading its stdin at all
 tok=""; log=""
 for a in "$@"; do
   case "$a" in
@@ -588,6 +798,7 @@ full="$tok"
 IFS=_
 set -- $tok
 code="$2"; out="$3"; err="$4"; slp="$5"; sig="$7"; when="$8"
+[ "$sig" = "NONE" ] && sig=""
 die() {
   emit "$out"
   emit "$err" >&2
@@ -605,7 +816,7 @@ emit() {
 }
 [ -n "$log" ] && echo "start $full" >> "$log"
 if [ -n "$sig" ] && [ "$when" = "pre" ]; then die; fi
-cat >/dev/null
+if [ "$when" != "nodrain" ]; then cat >/dev/null; fi
 if [ -n "$sig" ]; then die; fi
 if [ "$slp" != "0" ]; then sleep "$slp"; fi
 emit "$out"
@@ -634,7 +845,7 @@ def expect_pipe(cls, beh):
     rule says transient unless the output starts with 5.x.x, maildrop / dovecot-lda say permanent unless
     EX_TEMPFAIL: none of these is contradicted by the statement."""
     ex, out, err, slp = beh[:4]
-    if len(beh) > 4 and beh[4]:
+    if len(beh) > 4 and beh[4] and beh[4] != 'NONE':
         return 'F'
     if slp:
         return 'T'
@@ -673,12 +884,31 @@ def gen_pipe_all():
                                       'outcome': '%s-drain,out=%s,err=%s%s' % (when, SHAPES[out], SHAPES[err],
                                                                               ',2rcpt' if nrcpt == 2 else ''),
                                       'timeout': None, 'expect': ['F'] * nrcpt, 'single': True})
+    # ---------------- audit strata ----------------
+    for cls in PIPE_CLASSES:
+        # the rest of the exit-status range: sysexits.h, shell conventions (126), the largest (255)
+        for ex in (2, 64, 65, 67, 69, 70, 73, 74, 76, 77, 78, 126, 255):
+            for out, err in ((0, 0), (1, 0), (0, 2)):
+                beh = [ex, out, err, 0]
+                cases.append({'kind': 'pipe', 'cls': cls, 'nrcpt': 1, 'behs': [beh], 'stage': 'exit%d' % ex,
+                              'outcome': 'out=%s,err=%s' % (SHAPES[out], SHAPES[err]), 'timeout': None,
+                              'expect': [expect_pipe(cls, beh)], 'single': True})
+        # a program that exits without reading its input, the message being larger than a pipe buffer (the
+        # relay's write fails with EPIPE) -- the exit status alone decides
+        for ex, out in ((0, 0), (1, 1), (75, 2), (1, 0)):
+            beh = [ex, out, 0, 0, 'NONE', 'nodrain']
+            for nrcpt in ((1, 2) if ex in (0, 75) else (1,)):
+                cases.append({'kind': 'pipe', 'cls': cls, 'nrcpt': nrcpt, 'big': True,
+                              'behs': [beh] * (nrcpt if cls in ('pipe-per-rcpt', 'dovecot') else 1),
+                              'stage': 'stdin-not-read/exit%d' % ex,
+                              'outcome': 'out=%s%s' % (SHAPES[out], ',2rcpt' if nrcpt == 2 else ''), 'timeout': None,
+                              'expect': [expect_pipe(cls, beh)] * nrcpt, 'single': True})
     # per-recipient mixes (each recipient its own behaviour)
     ok, k9, seg = [0, 0, 0, 0], [0, 0, 0, 0, 'KILL', 'post'], [0, 1, 0, 0, 'SEGV', 'pre']
     mixes = [(ok, k9), (k9, ok), (ok, seg, ok), (seg, k9), ([1, 1, 0, 0], [0, 0, 0, 0, 'TERM', 'post'], ok),
              ([0, 0, 0, 0], [1, 1, 0, 0]), ([1, 0, 2, 0], [0, 0, 0, 0]), ([75, 0, 0, 0], [0, 1, 1, 0]),
              ([0, 0, 0, 0], [1, 4, 0, 0], [0, 0, 0, 0]), ([1, 0, 1, 0], [75, 2, 0, 0], [127, 0, 0, 0]),
-             ([0, 0, 0, 0], [0, 0, 0, 0.8]), ([0, 0, 0, 0.8], [0, 0, 0, 0]), ([1, 1, 0, 0], [0, 0, 0, 0.8], [0, 0, 0, 0])]
+             ([0, 0, 0, 0], [0, 0, 0, 5]), ([0, 0, 0, 5], [0, 0, 0, 0]), ([1, 1, 0, 0], [0, 0, 0, 5], [0, 0, 0, 0])]
     for cls in ('pipe-per-rcpt', 'dovecot'):
         for mix in mixes:
             slow = any(b[3] for b in mix)
@@ -690,7 +920,9 @@ def gen_pipe_all():
                           'stage': 'mix', 'outcome': '/'.join(
                               ('sig' + b[4]) if len(b) > 4 else 'x%d%s' % (b[0], '+sleep' if b[3] else '')
                               for b in mix),
-                          'timeout': T_STALL if slow else None, 'expect': exp, 'single': True, 'slow': slow})
+                          # one timeout spans all the recipients' programs: generous (T_PIPE_MIX), so that the
+                          # programs scripted before the sleeping one finish in time even on a loaded machine
+                          'timeout': T_PIPE_MIX if slow else None, 'expect': exp, 'single': True, 'slow': slow})
     # single mode with two recipients: one run decides for the message
     for cls in ('pipe-single', 'maildrop'):
         for beh in ([0, 0, 0, 0], [1, 1, 0, 0], [75, 0, 2, 0], [1, 0, 0, 0]):
@@ -728,8 +960,8 @@ def exec_pipe(case, alone=False):
             rcpts = [_tok(behs[0], 0) + '@p.test'] + ['u%d@p.test' % i for i in range(1, nrcpt)]
         else:
             rcpts = [_tok(behs[i], i) + '@p.test' for i in range(nrcpt)]
-    env = make_envelope(sender, rcpts, 'c11-%d' % uid)
-    res = run_attempt(relay, env, 0, timeout or T_FAST)
+    env = make_envelope(sender, rcpts, 'c11-%d' % uid, 'big' if case.get('big') else None)
+    res = run_attempt(relay, env, 0, timeout or (T_ALONE if alone else T_FAST))
     try:
         with open(log) as f:
             lines = f.read().split('\n')
@@ -742,15 +974,57 @@ def exec_pipe(case, alone=False):
         accepted = list(rcpts) if ok else []
     else:
         accepted = [r for i, r in enumerate(rcpts) if exits.get(_tok(behs[i], i)) == '0']
-    return {'msgs': [{'label': 'msg1', 'rcpts': rcpts, 'result': res, 'accepted': accepted,
-                      'expect': dict(zip(rcpts, case['expect']))}],
-            'fired': [0], 'nfaults': 1, 'log': {'stub_log': lines[:12], 'started': started}}
+    expect = dict(zip(rcpts, case['expect']))
+    early = False
+    if case['stage'] == 'mix' and timeout and not single:
+        # the relay's one timeout expired while a program scripted BEFORE the sleeping one was still running (the
+        # machine is that slow right now): what the relay then reports is a timeout, rightly -- nothing to judge
+        first_sleeper = min(i for i, b in enumerate(behs) if b[3])
+        for i in range(first_sleeper):
+            v = res['per'].get(rcpts[i])
+            if v is not None and 'timed out' in (v.get('repr') or '') and _tok(behs[i], i) not in exits:
+                early = True
+        if early:
+            expect = dict((r, '?') for r in rcpts)
+    return {'msgs': [{'label': 'msg1', 'rcpts': rcpts, 'result': res, 'accepted': accepted, 'expect': expect}],
+            'fired': [0], 'nfaults': 1, 'log': {'stub_log': lines[:12], 'started': started},
+            'timeout_hit_early': early}
 
 
 # ------------------------------------------------------------------------------------------------
 # HTTP relay
 # ------------------------------------------------------------------------------------------------
 HTTP_TABLE = {}
+
+
+def _http_reset(sock):
+    import struct
+    try:
+        sock.setsockopt(socket.SOL_SOCKET, socket.SO_LINGER, struct.pack('ii', 1, 0))
+    except (OSError, IOError):
+        pass
+
+
+def _https_handler(sock, addr):
+    """The TLS port: the handshake behaviour is looked up by the client's port-independent SNI-less hello --
+    there is nothing to look up before the handshake, so the mode is a module-level switch per listening port."""
+    mode = _G.get('https-mode-by-port', {}).get(sock.getsockname()[1], 'ok')
+    try:
+        if mode == 'eof':
+            return sock.close()
+        if mode in ('stall', 'garbage'):
+            if mode == 'garbage':
+                sock.recv(4096)
+                sock.sendall(b'HTTP/1.1 400 Bad Request\r\nContent-Length: 0\r\n\r\n')
+            while sock.recv(4096):
+                pass
+            return sock.close()
+        tsock = _ctx('server').wrap_socket(sock, server_side=True)
+    except (OSError, IOError):
+        sock.close()
+        return
+    _G['https-handshakes'] = _G.get('https-handshakes', 0) + 1
+    _http_handler(tsock, addr)
 
 
 def _http_handler(sock, addr):
@@ -801,12 +1075,21 @@ def _http_handler(sock, addr):
                 rec['responded'] = status
             elif kind == 'close':
                 return
+            elif kind == 'reset':
+                _http_reset(sock)
+                return
+            elif kind == 'raw-respond':         # a literal, complete response whose final status is act[2]
+                f.write(act[1])
+                f.flush()
+                rec['responded'] = act[2]
             elif kind == 'raw':
                 f.write(act[1])
                 f.flush()
                 if len(act) > 2 and act[2] == 'stall':
                     while f.read(1):
                         pass
+                if len(act) > 2 and act[2] == 'reset':
+                    _http_reset(sock)
                 return
             elif kind == 'stall':
                 while f.read(1):
@@ -831,6 +1114,14 @@ def _http_server():
         s = socket.socket()
         s.bind(('127.0.0.1', 0))
         _G['refused-sock'] = s
+        # TLS ports, one per handshake behaviour
+        _G['https-servers'] = {}
+        _G['https-mode-by-port'] = {}
+        for mode in ('ok', 'eof', 'stall', 'garbage'):
+            t = StreamServer(('127.0.0.1', 0), _https_handler)
+            t.start()
+            _G['https-servers'][mode] = t
+            _G['https-mode-by-port'][t.server_port] = mode
     return _G['http-server'].server_port, _G['refused-sock'].getsockname()[1]
 
 
@@ -847,7 +1138,9 @@ HDRS = collections.OrderedDict([
     ('unparsable-nosemicolon', b'550 5.1.1 no such user'),
 ])
 REASONS = {200: 'OK', 204: 'No Content', 400: 'Bad Request', 404: 'Not Found', 500: 'Internal Server Error',
-           503: 'Service Unavailable'}
+           503: 'Service Unavailable', 201: 'Created', 202: 'Accepted', 301: 'Moved Permanently', 302: 'Found',
+           304: 'Not Modified', 401: 'Unauthorized', 429: 'Too Many Requests', 502: 'Bad Gateway',
+           599: 'Network Connect Timeout Error'}
 HTTP_CONN_FAULTS = collections.OrderedDict([
     ('refused', None),
     ('close-before-response', ['close']),
@@ -856,6 +1149,9 @@ HTTP_CONN_FAULTS = collections.OrderedDict([
     ('error-headers-then-close', ['raw', b'HTTP/1.1 503 Service Unavailable\r\nContent-Length: 2\r\nX-Unfinished: y']),
     ('stall', ['stall']),
     ('partial-then-stall', ['raw', b'HTTP/1.1 200 OK\r\nContent-Le', 'stall']),
+    # audit: abortive closes
+    ('reset-before-response', ['reset']),
+    ('reset-mid-response', ['raw', b'HTTP/1.1 200 OK\r\nContent-Length: 100\r\nX-Half-A-Head', 'reset']),
 ])
 
 
@@ -882,6 +1178,31 @@ def gen_http_all():
                 cases.append({'kind': 'http', 'stage': 'status%d' % status, 'outcome': 'hdr-' + hdr, 'nrcpt': nrcpt,
                               'script': [['respond', status, REASONS[status], HDRS[hdr]]], 'expect': [e] * nrcpt,
                               'single': True, 'reuse': None})
+    # audit: the status classes the first table did not have (other 2xx, 3xx -- never followed --, other 4xx/5xx)
+    for status in (201, 202, 301, 302, 304, 401, 429, 502, 599):
+        for hdr in ('none', '250', '450', '550', 'unparsable-999'):
+            e = expect_http(status, hdr)
+            cases.append({'kind': 'http', 'stage': 'status%d' % status, 'outcome': 'hdr-' + hdr, 'nrcpt': 1,
+                          'script': [['respond', status, REASONS[status], HDRS[hdr]]], 'expect': [e],
+                          'single': True, 'reuse': None})
+    # an interim 100 Continue before the final response
+    for status, hdr, e in ((200, '250', 'D'), (503, '450', 'T'), (500, '550', 'P')):
+        raw = (b'HTTP/1.1 100 Continue\r\n\r\n' + ('HTTP/1.1 %d %s\r\n' % (status, REASONS[status])).encode() +
+               b'Content-Length: 0\r\nX-Smtp-Reply: ' + HDRS[hdr] + b'\r\n\r\n')
+        cases.append({'kind': 'http', 'stage': 'interim100+status%d' % status, 'outcome': 'hdr-' + hdr, 'nrcpt': 1,
+                      'script': [['raw-respond', raw, status]], 'expect': [e], 'single': True, 'reuse': None})
+    # https next hop: the same statuses inside TLS, and the handshake failing in every way
+    for status, hdr in ((200, '250'), (204, 'none'), (503, '450'), (500, '550'), (404, 'none')):
+        cases.append({'kind': 'http', 'stage': 'https+status%d' % status, 'outcome': 'hdr-' + hdr, 'nrcpt': 1,
+                      'script': [['respond', status, REASONS[status], HDRS[hdr]]], 'https': 'ok',
+                      'expect': [expect_http(status, hdr)], 'single': True, 'reuse': None})
+    for mode, e in (('eof', 'F'), ('stall', 'T'), ('garbage', 'F'), ('cert-untrusted', 'F'), ('plain-http-port', 'F')):
+        cases.append({'kind': 'http', 'stage': 'https-handshake', 'outcome': mode, 'nrcpt': 1,
+                      'script': [['respond', 200, 'OK', HDRS['250']]], 'https': mode, 'expect': [e], 'single': True,
+                      'reuse': None, 'slow': mode in ('stall', 'plain-http-port')})
+    cases.append({'kind': 'http', 'stage': 'https+status200', 'outcome': 'hdr-250', 'nrcpt': 1, 'https': 'ok',
+                  'script': [['respond', 200, 'OK', HDRS['250']], ['respond', 204, 'No Content', HDRS['250']]],
+                  'expect': [['D'], ['D']], 'single': True, 'reuse': 'immediate'})
     for name, act in HTTP_CONN_FAULTS.items():
         for nrcpt in (1, 2):
             cases.append({'kind': 'http', 'stage': 'connection', 'outcome': name, 'nrcpt': nrcpt,
@@ -911,12 +1232,21 @@ def exec_http(case, alone=False):
     ent = {'script': case['script'], 'requests': []}
     # stall cases wait for the relay's timeout; elsewhere the timeout only bounds a relay that hangs
     T = T_STALL if case.get('slow') else T_ALONE if alone else T_FAST
+    context = None
+    hs0 = _G.get('https-handshakes', 0)
     if case.get('refused'):
         url = 'http://127.0.0.1:%d%s' % (refused_port, path)
+    elif case.get('https'):
+        HTTP_TABLE[path] = ent
+        mode = case['https']
+        tport = port if mode == 'plain-http-port' else \
+            _G['https-servers'][mode if mode in ('eof', 'stall', 'garbage') else 'ok'].server_port
+        url = 'https://127.0.0.1:%d%s' % (tport, path)
+        context = _ctx('client-strict' if mode == 'cert-untrusted' else 'client')
     else:
         HTTP_TABLE[path] = ent
         url = 'http://127.0.0.1:%d%s' % (port, path)
-    relay = HttpRelay(url, ehlo_as='me', timeout=T, idle_timeout=0.3 if case.get('reuse') else None)
+    relay = HttpRelay(url, ehlo_as='me', timeout=T, idle_timeout=0.3 if case.get('reuse') else None, context=context)
     crashes = _own(relay)
     rcpts = ['r%d@h.test' % i for i in range(case['nrcpt'])]
     nmsg = 2 if case.get('reuse') else 1
@@ -944,7 +1274,8 @@ def exec_http(case, alone=False):
     return {'msgs': msgs, 'fired': [0], 'nfaults': 1,
             'log': {'requests': [{k: v for k, v in rq.items() if k != 'conn'} for rq in ent['requests']],
                     'client_greenlets_died_with': list(crashes)},
-            'reused': len(conns) > 1 and len(set(conns)) == 1}
+            'reused': len(conns) > 1 and len(set(conns)) == 1,
+            'tls_seen': _G.get('https-handshakes', 0) > hs0}
 
 
 # ------------------------------------------------------------------------------------------------
@@ -998,6 +1329,10 @@ DNS_ERR = {'SERVFAIL': pycares.errno.ARES_ESERVFAIL, 'TIMEOUT': pycares.errno.AR
            'NOTFOUND': pycares.errno.ARES_ENOTFOUND, 'NODATA': pycares.errno.ARES_ENODATA}
 
 
+DNS_ERR_ALL = dict(('EOF' if n == 'ARES_EOF' else n[6:], c) for c, n in pycares.errno.errorcode.items()
+                   if n.startswith('ARES_E') and isinstance(c, int) and c != 0)
+
+
 def gen_mx_all():
     cases = []
 
@@ -1043,6 +1378,51 @@ def gen_mx_all():
         f = {'stage': 'connect', 'action': ['refuse'], 'nconnect': 1} if st == 'connect' else fault(st, o)
         mk('mx3+' + st, o, {'MX': [[10, 'mx0'], [20, 'mx1'], [30, 'mx2']]}, [1], ['mx1'], [e],
            faults={'mx1': [f]})
+    # ---------------- audit strata ----------------
+    mx3 = {'MX': [[20, 'mx1'], [30, 'mx2'], [10, 'mx0']]}
+    # fallback over several attempts: hosts fail in different ways, the rotation goes on and wraps around; a
+    # fault is scripted for the first connection to a host only, so the wrapped-around attempt succeeds
+    refuse = {'stage': 'connect', 'action': ['refuse'], 'nconnect': 1}
+    seqs = [('refuse/554-banner/ok', {'mx0': [refuse], 'mx1': [fault('banner', '554')]}, ['T', 'P', 'D', 'D', 'D']),
+            ('450-rcpt/close-at-data/550-eod', {'mx0': [fault('rcpt0', '450')], 'mx1': [fault('data', 'close')],
+                                               'mx2': [fault('eod0', '550')]}, ['T,D', 'T', 'P', 'D', 'D']),
+            ('550-mail/reset-at-banner/ok', {'mx0': [fault('mail', '550')], 'mx1': [fault('banner', 'reset')]},
+             ['P', 'T', 'D', 'D', 'D']),
+            ('ok/garbage-banner/421-eod', {'mx1': [fault('banner', 'garbage')], 'mx2': [fault('eod0', '421')]},
+             ['D', 'T', 'T', 'D', 'D'])]
+    for name, ff, exp in seqs:
+        for nrcpt in (1, 2):
+            mk('mx3-fallback', name + (',2rcpt' if nrcpt == 2 else ''), mx3, [0, 1, 2, 3, 4],
+               ['mx0', 'mx1', 'mx2', 'mx0', 'mx1'], exp, faults=ff, nrcpt=nrcpt)
+    # force_mx: the forced destination and port are used whatever the resolver would say; domain case-insensitive
+    for dns_name, dns in (('mx-present', mx3), ('nothing', {'MX': 'NODATA', 'A': 'NOTFOUND'}),
+                          ('resolver-error', {'MX': 'SERVFAIL'})):
+        for upper in (False, True):
+            mk('force-mx', dns_name + (',upper-case-domain' if upper else ''), dns, [0, 1, 5],
+               ['forced'] * 3, ['D'] * 3, force={'host': 'forced', 'port': 2525, 'upper': upper})
+    mk('force-mx', 'fault-at-forced-host', mx3, [0, 1], ['forced', 'forced'], ['P', 'D'],
+       force={'host': 'forced', 'port': 2525, 'upper': False}, faults={'forced': [fault('rcpt0', '550')]})
+    # the resolver's answer changes between attempts (per-attempt tables): nothing is remembered from a failed
+    # lookup, and with TTL 0 nothing from a successful one either
+    two = {'MX': [[10, 'mx0'], [20, 'mx1']]}
+    for err, e in (('SERVFAIL', 'T'), ('TIMEOUT', 'T')):
+        mk('dns-changes', '%s-then-mx' % err, None, [0, 1, 2], [None, 'mx1', 'mx0'], [e, 'D', 'D'],
+           dns_seq=[{'MX': err}, two, two])
+    mk('dns-changes', 'nothing-then-mx', None, [0, 1], [None, 'mx1'], ['P', 'D'],
+       dns_seq=[{'MX': 'NODATA', 'A': 'NOTFOUND'}, two])
+    mk('dns-changes', 'mx-then-nothing-ttl0', None, [0, 1], ['mx0', None], ['D', 'P'], ttl=0,
+       dns_seq=[two, {'MX': 'NOTFOUND', 'A': 'NODATA'}])
+    mk('dns-changes', 'mx-then-SERVFAIL-ttl0', None, [0, 1, 2], ['mx0', None, 'mx0'], ['D', 'T', 'D'], ttl=0,
+       dns_seq=[two, {'MX': 'SERVFAIL'}, two])
+    mk('dns-changes', 'mx-then-other-mx-ttl0', None, [0, 1], ['mx0', 'mx2'], ['D', 'D'], ttl=0,
+       dns_seq=[two, {'MX': [[5, 'mx3'], [7, 'mx2']]}])
+    mk('dns-changes', 'a-then-mx-ttl0', None, [0, 1], ['@domain', 'mx1'], ['D', 'D'], ttl=0,
+       dns_seq=[{'MX': 'NODATA', 'A': [['192.0.2.7']]}, two])
+    # every other error the resolver library can report is a resolver error => transient
+    for name in sorted(DNS_ERR_ALL):
+        if name not in ('NODATA', 'NOTFOUND') and name not in DNS_ERR:
+            mk('resolver-error', 'mx-' + name, {'MX': name}, [0], [None], ['T'])
+            mk('resolver-error', 'a-' + name, {'MX': 'NOTFOUND', 'A': name}, [0], [None], ['T'])
     return cases
 
 
@@ -1053,19 +1433,25 @@ def exec_mx(case, alone=False):
     dom = 'd%d.mx.test' % uid
     hosts = {}
     seen_addr = []
-    fired = set()
+    fired_by_host = {}
+    names = set([dom])
 
     def hostname(h):
         return '%s.%s' % (h, dom)
-    for t, ans in case['dns'].items():
-        if isinstance(ans, str):
-            ch.table[(dom, t)] = DNS_ERR[ans]
-        elif t == 'MX':
-            ch.table[(dom, t)] = [Rec(hostname(h), p, case.get('ttl', 300)) for p, h in ans]
-        else:
-            ch.table[(dom, t)] = [Rec(a[0], None, case.get('ttl', 300)) for a in ans]
-    names = set([dom] + [hostname(h) for p, h in (case['dns'].get('MX') if isinstance(case['dns'].get('MX'), list)
-                                                  else [])])
+
+    def install(dns):
+        for t in ('MX', 'A'):
+            ch.table.pop((dom, t), None)
+        for t, ans in dns.items():
+            if isinstance(ans, str):
+                ch.table[(dom, t)] = DNS_ERR_ALL[ans]
+            elif t == 'MX':
+                ch.table[(dom, t)] = [Rec(hostname(h), p, case.get('ttl', 300)) for p, h in ans]
+                names.update(hostname(h) for p, h in ans)
+            else:
+                ch.table[(dom, t)] = [Rec(a[0], None, case.get('ttl', 300)) for a in ans]
+    if case.get('dns') is not None:
+        install(case['dns'])
 
     def creator(address):
         seen_addr.append(address)
@@ -1074,13 +1460,18 @@ def exec_mx(case, alone=False):
             if host not in names:
                 raise socket.error(errno.ECONNREFUSED, 'no such scripted host %r' % (host,))
             short = host[:-len(dom) - 1] if host != dom else '@domain'
-            D = Downstream()
-            D.script = make_script(D, case['faults'].get(short, []), fired)
+            ff = case['faults'].get(short, [])
+            D = Downstream11(tcp=any(f['action'][0] == 'reset' for f in ff))
+            D.script = make_script(D, ff, fired_by_host.setdefault(short, set()))
             hosts[host] = D
         return hosts[host].creator(address)
 
     relay = MxSmtpRelay(socket_creator=creator, connect_timeout=T, command_timeout=T, data_timeout=T,
                         ehlo_as='me', context=_ctx('client'))
+    force = case.get('force')
+    if force:
+        names.add(hostname(force['host']))
+        relay.force_mx(dom.upper() if force['upper'] else dom, hostname(force['host']), force['port'])
     if case.get('rcpt') is not None:
         rcpts = [case['rcpt']]
     else:
@@ -1092,15 +1483,19 @@ def exec_mx(case, alone=False):
         for i, att in enumerate(case['attempts']):
             marker = 'c11-%d-a%d' % (uid, i)
             env = make_envelope('s@src.test', rcpts, marker)
+            if case.get('dns_seq'):
+                install(case['dns_seq'][i])
             n0 = len(seen_addr)
             res = run_attempt(relay, env, att, T)
             gevent.sleep(0)
             chosen = seen_addr[n0:]
             exp_host = case['expect_host'][i]
             m = {'label': 'attempt#%d' % att, 'marker': marker, 'rcpts': rcpts, 'result': res,
-                 'expect': dict(zip(rcpts, [case['expect'][i]] * len(rcpts))),
+                 'expect': dict(zip(rcpts, case['expect'][i].split(',') if ',' in case['expect'][i]
+                                    else [case['expect'][i]] * len(rcpts))),
                  'chosen': [list(a) for a in chosen],
-                 'expected_host': None if exp_host is None else dom if exp_host == '@domain' else hostname(exp_host)}
+                 'expected_host': None if exp_host is None else dom if exp_host == '@domain' else hostname(exp_host),
+                 'expected_port': force['port'] if force else 25}
             acc = set()
             for D in hosts.values():
                 acc.update(D.accepted().get(marker, ()))
@@ -1114,7 +1509,8 @@ def exec_mx(case, alone=False):
         for t in ('MX', 'A'):
             ch.table.pop((dom, t), None)
     nf = sum(len(v) for v in case['faults'].values())
-    return {'msgs': msgs, 'fired': sorted(fired), 'nfaults': nf,
+    fired = ['%s#%d' % (h, n) for h, st in sorted(fired_by_host.items()) for n in sorted(st)]
+    return {'msgs': msgs, 'fired': fired, 'nfaults': nf,
             'log': {'queries': [list(q) for q in ch.queries[nq0:] if q[0].lower().endswith(dom)][:12],
                     'hosts': {h: _conn_log(D) for h, D in hosts.items()}}}
 
@@ -1205,10 +1601,12 @@ def classify(clause, case, m, extra='', crashes=()):
         if k == 'pipe' and extra.isdigit() and case['cls'] in PIPE_CLASSES:
             behs = case['behs']
             b = behs[0] if case['cls'] in ('pipe-single', 'maildrop') else behs[int(extra)]
-            if len(b) > 4 and b[4]:
+            if len(b) > 4 and b[4] and b[4] != 'NONE':
                 return 'unsafe-delivered/pipe/child-killed-by-signal-reported-delivered'
         return 'unclassified/unsafe-delivered/%s/%s/%s' % (k, fam, oc)
     if clause == 'class':
+        if k in ('smtp', 'lmtp') and case['stage'] == 'rcpt-all-mixed':
+            return 'wrong-class/smtp+lmtp/every-rcpt-refused-with-differing-classes->all-get-the-first-reply'
         if k == 'http' and outcome.endswith('-command') and "no attribute 'decode'" in str(res['per']):
             return 'wrong-class/http/X-Smtp-Reply-command-param->AttributeError-reported-as-transient'
         return 'unclassified/wrong-class/%s/%s/%s/%s' % (k, fam, oc, extra)
@@ -1322,8 +1720,13 @@ def judge(case, obs, R=None):
                 hit('mx-host-choice-checked')
                 if hosts[:1] != [eh]:
                     V.append((classify('mx-host', case, m),
-                              'attempt number %s must go to %s (sorted by priority, attempts mod n) but the relay '
-                              'connected to %s [%s]' % (m['label'], eh, hosts, tag), wit))
+                              'attempt number %s must go to %s (%s) but the relay '
+                              'connected to %s [%s]' % (m['label'], eh, 'the forced destination' if case.get('force')
+                                                        else 'sorted by priority, attempts mod n', hosts, tag), wit))
+                elif m['chosen'][0][1] != m.get('expected_port', 25):
+                    V.append((classify('mx-host', case, m),
+                              'attempt number %s must go to port %s but the relay connected to %s [%s]'
+                              % (m['label'], m.get('expected_port'), m['chosen'][0], tag), wit))
             elif hosts and exp and list(exp.values())[0] in ('P', 'T'):
                 V.append((classify('mx-host', case, m), 'unroutable / failed lookup but the relay connected to %s [%s]'
                           % (hosts, tag), wit))
@@ -1341,7 +1744,7 @@ def nt_key(case):
 
 def is_nontrivial(case):
     if case['kind'] == 'smtp':
-        return bool(case['faults'])
+        return bool(case['faults']) or bool(case.get('nontrivial'))
     if case['kind'] == 'pipe':
         return any(b[0] != 0 or b[3] or len(b) > 4 for b in case['behs'])
     if case['kind'] == 'http':
@@ -1380,8 +1783,60 @@ def _report(case, obs, V, R):
             R.violation(mech, what, wit)
 
 
+def strata(case, obs):
+    """Names of the audit strata this (executed) case belongs to -- counted only when the downstream log shows
+    that the scripted behaviour really happened."""
+    kind, st, oc, out = case['kind'], case['stage'], case['outcome'], []
+    fired = bool(obs['fired']) or not obs['nfaults']
+    if kind == 'smtp':
+        acts = [f['action'] for f in case['faults']]
+        tls = case.get('tls') or {}
+        if obs.get('reset_seen') and obs.get('tcp'):
+            out.append('tcp-reset-by-next-hop')
+        if case.get('oclass') == 'ok-variant' and fired:
+            out.append('positive-reply-variant')
+        if fired and any(a[0] == 'reply-ml' or (a[0] == 'chunks' and a[2][0] == 'reply-ml') for a in acts):
+            out.append('multi-line-reply')
+        if fired and any(a[0] == 'chunks' for a in acts):
+            out.append('segmented-reply')
+        if (fired and any(f['stage'] == 'tlshandshake' for f in case['faults'])) or tls.get('strict'):
+            out.append('tls-handshake-failure')
+        if tls.get('immediately') and (obs.get('tls_seen') or 'tls-' in oc):
+            out.append('tls-immediately')
+        if st.startswith('tls+') and obs.get('tls_seen') and fired:
+            out.append('fault-inside-tls-session')
+        if case.get('lenient') and obs.get('empty_data_seen'):
+            out.append('empty-message-owed-after-refusal')
+        if case.get('no8bitmime'):
+            out.append('8bit-message-for-7bit-next-hop')
+        if case.get('oclass') == 'attribution' and len(obs['fired']) >= 2:
+            out.append('two-recipient-faults-attribution')
+    elif kind == 'mx':
+        name = {'mx3-fallback': 'mx-fallback-sequence', 'force-mx': 'mx-forced-destination',
+                'dns-changes': 'mx-resolver-answer-changes'}.get(st)
+        if name:
+            out.append(name)
+    elif kind == 'http':
+        if obs.get('tls_seen'):
+            out.append('https-session')
+        if st == 'https-handshake':
+            out.append('https-handshake-failure')
+        if re.match(r'^status3\d\d$', st) and obs['log']['requests'] and obs['log']['requests'][0]['responded']:
+            out.append('http-3xx-status')
+        if st.startswith('interim100'):
+            out.append('http-interim-100')
+        if 'reset' in oc:
+            out.append('tcp-reset-by-next-hop')
+    elif kind == 'pipe':
+        if st.startswith('stdin-not-read') and obs['log']['started']:
+            out.append('pipe-stdin-not-read')
+    return out
+
+
 def _account(case, obs, R):
     k, fam, outcome, pl = labels(case)
+    for name in strata(case, obs):
+        R.hit('stratum/' + name)
     R.eval(len(obs['msgs']))
     R.count('cases/' + case['kind'])
     R.count('attempts/' + k, len(obs['msgs']))
@@ -1392,6 +1847,8 @@ def _account(case, obs, R):
         R.nontrivial(nt_key(case))
     if obs.get('tls_seen'):
         R.hit('tls-negotiated-downstream')
+    if obs.get('timeout_hit_early'):
+        R.count('pipe-mix/timeout-expired-before-the-sleeping-program-started')
     if obs.get('reused'):
         R.hit('connection-reused/' + case['kind'])
     for m in obs['msgs']:
